@@ -609,4 +609,73 @@ example : matchInstancesMixed (fun (g p : Nat) => if g = p then some (1 : Rat) e
     matchInstancesMixedFixed (fun (g p : Nat) => if g = p then some (1 : Rat) else some (1/4))
       (fun p => some (if p = 1 then 9/10 else 1/2)) 0 [0, 1] [0, 1, 2] := by decide +kernel
 
+/-! ## `user_labels_only`: which instances are enumerated, and what `npig` counts -/
+
+section modes
+variable {G P : Type}
+
+/-- In either mode every pair is (a gt frame whose `insts` are exactly the enumerated instances of a
+frame of the reference labels — its user instances in the default mode, **all** its instances,
+predicted ones included, with `user_labels_only=False`; the prediction frame with the same `frame_idx`
+on the matching video).  The default mode additionally drops frames without user instances; the
+other mode keeps even frames without any instance. -/
+theorem evaluator_pairs_sound (userOnly : Bool) (isUser : G → Bool) (gt : Labels G) (pr : Labels P)
+    (a : LFrame G) (b : LFrame P) (h : (a, b) ∈ evaluatorPairs userOnly isUser gt pr) :
+    (∃ f ∈ gt.frames, a.video = f.video ∧ a.frameIdx = f.frameIdx ∧
+        a.insts = enumerated userOnly isUser f.insts) ∧
+    (userOnly = true → a.insts ≠ []) ∧ b ∈ pr.frames ∧ b.frameIdx = a.frameIdx ∧
+    ∃ vk, gt.videos[a.video]? = some vk ∧ pr.videos[b.video]? = some vk := by
+  unfold evaluatorPairs at h
+  have key : ∀ (view : Labels G), (a, b) ∈ findFramePairsAll view pr →
+      a ∈ view.frames ∧ b ∈ pr.frames ∧ b.frameIdx = a.frameIdx ∧
+      ∃ vk, view.videos[a.video]? = some vk ∧ pr.videos[b.video]? = some vk := by
+    intro view hv
+    obtain ⟨vk, pj, hvid, hf, ha, hfind⟩ := (mem_findFramePairsAll view pr a b).mp hv
+    have hb := List.find?_some hfind
+    simp only [Bool.and_eq_true, beq_iff_eq] at hb
+    obtain ⟨x, hx, hpx, _⟩ := firstIdx_spec _ _ pj hf
+    have : x = vk := (sameVideo_iff vk x).mp hpx
+    subst this
+    exact ⟨ha, List.mem_of_find?_eq_some hfind, hb.2, x, hvid, by rw [hb.1]; exact hx⟩
+  cases userOnly with
+  | true =>
+    simp only [if_true] at h
+    obtain ⟨hall, hne⟩ := (mem_findFramePairs_iff_all _ pr a b).mp h
+    obtain ⟨ha, hb, hi, hv⟩ := key _ hall
+    obtain ⟨f, hf, rfl⟩ := List.mem_map.mp ha
+    exact ⟨⟨f, hf, rfl, rfl, rfl⟩, fun _ => hne, hb, hi, hv⟩
+  | false =>
+    simp only [Bool.false_eq_true, if_false] at h
+    obtain ⟨ha, hb, hi, hv⟩ := key _ h
+    obtain ⟨f, hf, rfl⟩ := List.mem_map.mp ha
+    exact ⟨⟨f, hf, rfl, rfl, rfl⟩, (fun h0 => absurd h0 (by simp)), hb, hi, hv⟩
+
+/-- **What `npig` counts.**  `len(positive_pairs) + len(false_negatives)` — the denominator of every
+recall — is the number of *enumerated* gt instances of the paired frames, in either mode: with
+`user_labels_only=False` the predicted instances stored in the reference frames are matched **and**
+counted.  (Counting `user_instances` instead — round-4 seed C16-r4m1 — makes recall exceed 1.) -/
+theorem npig_eq_enumerated {R : Type} [Field R] [LinearOrder R] [IsStrictOrderedRing R]
+    (oks : G → P → Option R) (score : P → R) (thr : R) (userOnly : Bool) (isUser : G → Bool)
+    (gt : Labels G) (pr : Labels P) :
+    (processFrames oks score thr (evaluatorFrames userOnly isUser gt pr)).1.length +
+      (processFrames oks score thr (evaluatorFrames userOnly isUser gt pr)).2.length =
+    ((evaluatorPairs userOnly isUser gt pr).map (fun ab => ab.1.insts.length)).sum := by
+  have := processFrames_count oks score thr (evaluatorFrames userOnly isUser gt pr) (by
+    intro f hf
+    obtain ⟨ab, _, rfl⟩ := List.mem_map.mp hf
+    rfl)
+  rw [this]
+  simp [evaluatorFrames, List.map_map, Function.comp_def]
+
+example : (evaluatorPairs (G := Nat) (P := Nat) false (fun g => g < 10)
+      ⟨[⟨0, 7, some 0⟩], [⟨0, 0, [1, 11]⟩, ⟨0, 1, [12]⟩, ⟨0, 2, []⟩]⟩
+      ⟨[⟨0, 7, some 0⟩], [⟨0, 0, [20]⟩, ⟨0, 1, [21]⟩, ⟨0, 2, [22]⟩]⟩).map (fun ab => (ab.1.insts, ab.2.insts))
+    = [([1, 11], [20]), ([12], [21]), ([], [22])] ∧
+  (evaluatorPairs (G := Nat) (P := Nat) true (fun g => g < 10)
+      ⟨[⟨0, 7, some 0⟩], [⟨0, 0, [1, 11]⟩, ⟨0, 1, [12]⟩, ⟨0, 2, []⟩]⟩
+      ⟨[⟨0, 7, some 0⟩], [⟨0, 0, [20]⟩, ⟨0, 1, [21]⟩, ⟨0, 2, [22]⟩]⟩).map (fun ab => (ab.1.insts, ab.2.insts))
+    = [([1], [20])] := by decide
+
+end modes
+
 end SleapVerif.C16
